@@ -344,3 +344,35 @@ func MayBeNilConst(v ssa.Value) bool {
 	}
 	return walk(v)
 }
+
+// MayReturnNil: the idx-th result of this return may be nil (MayBeNilConst) and the return does not sit behind the
+// not-nil edge of a test of that very value (`if err != nil { return err }` on a variable that carries nil or an
+// error is not a successful exit).
+func MayReturnNil(ret *ssa.Return, idx int) bool {
+	v := RetVal(ret, idx)
+	if !MayBeNilConst(v) {
+		return false
+	}
+	if IsNilConst(v) {
+		return true
+	}
+	b := ret.Block()
+	for d := b.Idom(); d != nil; d = d.Idom() {
+		if len(d.Instrs) == 0 {
+			continue
+		}
+		i, ok := d.Instrs[len(d.Instrs)-1].(*ssa.If)
+		if !ok {
+			continue
+		}
+		cd, ok := Classify(i)
+		if !ok || cd.Kind != "nil" || cd.X != v {
+			continue
+		}
+		t := cd.EdgeWhen(false).To() // the value is not nil
+		if len(t.Preds) == 1 && (t == b || t.Dominates(b)) {
+			return false
+		}
+	}
+	return true
+}
